@@ -10,3 +10,14 @@ mod migration;
 mod recover;
 pub mod service;
 mod sync;
+
+// Re-export of the coordinator's building blocks so that a verification harness can drive
+// single rounds (sync, migration sync, detection, failover) without the TCP API service.
+#[cfg(feature = "verif_hooks")]
+pub mod verif_export {
+    pub use super::core::*;
+    pub use super::detector::*;
+    pub use super::migration::*;
+    pub use super::recover::*;
+    pub use super::sync::*;
+}
